@@ -102,12 +102,12 @@ func main() {
 	o.def("func_cases", "list (list string * string)", clist(rows))
 	o.json["func_cases"] = jrows
 
-	// absentLabels (fix 5b88941): the model's [absent_names] follows this exact body
+	// absentLabels (fixes 5b88941, 06b3093): the model's [absent_names] follows this exact body
 	af := findFunc(p, "", "absentLabels")
 	if af == nil {
 		fatal("absentLabels not found")
 	}
-	const absentLabelsBody = "var selector *promParser.VectorSelector|switch a := arg.(type) { case *promParser.VectorSelector: selector = a case *promParser.MatrixSelector: selector, _ = a.VectorSelector.(*promParser.VectorSelector) }|if selector == nil { return nil }|count := map[string]int{}|for _, lm := range selector.LabelMatchers { count[lm.Name]++ }|for _, lm := range selector.LabelMatchers { if lm.Name == labels.MetricName || lm.Type != labels.MatchEqual || lm.Value == \"\" || count[lm.Name] > 1 { continue } names = appendToSlice(names, lm.Name) }|return names"
+	const absentLabelsBody = "for { p, ok := arg.(*promParser.ParenExpr) if !ok { break } arg = p.Expr }|var selector *promParser.VectorSelector|switch a := arg.(type) { case *promParser.VectorSelector: selector = a case *promParser.MatrixSelector: selector, _ = a.VectorSelector.(*promParser.VectorSelector) }|if selector == nil { return nil }|seen := map[string]bool{}|for _, lm := range selector.LabelMatchers { if lm.Name == labels.MetricName { continue } if lm.Type == labels.MatchEqual && !seen[lm.Name] { seen[lm.Name] = true if lm.Value != \"\" { names = appendToSlice(names, lm.Name) continue } } names = removeFromSlice(names, lm.Name) }|return names"
 	if fp := bodyFingerprint(af.Body.List); fp != absentLabelsBody {
 		fatal("absentLabels has an unrecognised body: %s", fp)
 	}
